@@ -62,6 +62,7 @@ func cmdMesh(args []string) {
 	res := &Result{}
 	defer res.write(*out)
 	col := trace.Install()
+	installPerturbation(*seed, 6, 400*time.Microsecond)
 	type scT struct {
 		sc      meshScenario
 		final   *meshFinal
